@@ -466,7 +466,9 @@ class MerchantEngine:
                         if isinstance(result, list):
                             for item in result:
                                 if item:
-                                    resolved.add(str(item).strip().lower())
+                                    item_text = str(item).strip()
+                                    if item_text:  # Skip whitespace-only items, as for scalar values
+                                        resolved.add(item_text.lower())
                         else:
                             stripped = str(result).strip()
                             if stripped:
